@@ -424,6 +424,37 @@ def run(tier, seed):
       import traceback
       viol('MultiObjectiveNumpyExperimenter with %d objectives raised %s' % (nobj, type(e).__name__), {'error': traceback.format_exc()[-400:]})
 
+  # the dict combinator of single-objective experimenters when one component is infeasible in part of the space (a NaN objective):
+  # every given trial is completed - with every metric, or marked infeasible - and keeps its parameters
+  for k_ in range(2 if quick else 8):
+    try:
+      ps1 = bbob.DefaultBBOBProblemStatement(2, metric_name='m1')
+      ps2 = bbob.DefaultBBOBProblemStatement(2, metric_name='m2')
+      cut_ = r.choice([0.0, 1.0, -2.0])
+      first_bad = r.random() < 0.5
+      fbad = lambda x, cut_=cut_: float('nan') if x[0] > cut_ else float(np.sum(x))
+      e_ok, e_bad = nu.NumpyExperimenter(bbob.Sphere, ps1), nu.NumpyExperimenter(fbad, ps2)
+      exm = mo.MultiObjectiveExperimenter({'a': e_bad, 'b': e_ok} if first_bad else {'a': e_ok, 'b': e_bad})
+      pts = sample(exm.problem_statement(), 4) + [{'x0': cut_ + 1.0, 'x1': 0.5}, {'x0': cut_ - 1.0, 'x1': 0.5}]
+      trials = [vz.Trial(parameters=p_) for p_ in pts]
+      rep.case({'wrapper': 'multi-objective-dict', 'infeasible_component_first': first_bad, 'cut': cut_}, True)
+      rep.count('multiobjective_dict_with_infeasible_region')
+      exm.evaluate(trials)
+      for p_, t_ in zip(pts, trials):
+        got_p = {kk: vv.value for kk, vv in t_.parameters.items()}
+        should_be_infeasible = p_['x0'] > cut_
+        if t_.status != vz.TrialStatus.COMPLETED or got_p != p_ or bool(t_.infeasible) != should_be_infeasible or \
+            (not should_be_infeasible and set((t_.final_measurement.metrics if t_.final_measurement else {}).keys()) != {'a', 'b'}):
+          viol('MultiObjectiveExperimenter: a trial is not completed with every metric / marked infeasible / left with its parameters '
+               'when one objective is infeasible at some points',
+               {'point': p_, 'cut': cut_, 'status': t_.status.name, 'infeasible': bool(t_.infeasible), 'parameters_after': got_p,
+                'metrics': sorted((t_.final_measurement.metrics if t_.final_measurement else {}).keys())})
+          break
+    except Exception as e:  # pylint: disable=broad-except
+      import traceback
+      viol('MultiObjectiveExperimenter raised %s when one objective is infeasible at some points' % type(e).__name__,
+           {'cut': cut_, 'error': traceback.format_exc()[-500:]})
+
   # every noise type, long enough for the rare (5%) heavy-tailed draws to fire: two wrappers with the same seed must agree
   # whatever the state of numpy's global generator is
   for nt in ['NO_NOISE', 'MODERATE_GAUSSIAN', 'SEVERE_GAUSSIAN', 'MODERATE_UNIFORM', 'SEVERE_UNIFORM', 'MODERATE_SELDOM_CAUCHY', 'SEVERE_SELDOM_CAUCHY']:
